@@ -74,10 +74,17 @@ def expand_bits(case):
 def check(case, rec):
     bits = expand_bits(case)
     k = case['k']
-    if case.get('ktype') == 'float':
+    kt = case.get('ktype')
+    if kt == 'float':
         k = float(k)
-    elif case.get('ktype') == 'npint':
+    elif kt == 'npint':
         k = np.int64(k)
+    elif kt == 'frac':                     # a non-integral minimum (check_param_range admits any number in [0, inf])
+        k = k + case.get('frac', 0.5)
+    elif kt == 'inf-py':
+        k = float('inf')
+    elif kt == 'inf-np':
+        k = np.float64('inf')
     arr = np.array(bits, dtype=bool)
     orig = arr.copy()
     out = guarded(check_min_burst_cycles, as_layout(arr, case.get('layout', 'c')), min_n_cycles=k)
@@ -122,6 +129,10 @@ def enum(tier, shard, nshards):
             idx += 1
             if idx % nshards != shard:
                 continue
+            if n <= 8:
+                for k in range(0, n + 1):
+                    yield {'bits': list(bits), 'k': k, 'ktype': 'frac', 'frac': [0.25, 0.5][k % 2], 'layout': 'c'}
+                yield {'bits': list(bits), 'k': 0, 'ktype': ['inf-py', 'inf-np'][idx % 2], 'layout': 'c'}
             for k in range(0, n + 2):
                 yield {'bits': list(bits), 'k': k, 'layout': ['c', 'rev', 'stride', 'col'][(idx + k) % 4] if n <= 10 else 'c'}
 
@@ -142,15 +153,15 @@ def strategy(tier):
             v = not v
         bits = bits[:400]
         k = draw(st.one_of(st.integers(0, 50), st.sampled_from(sorted(set(runs))), st.sampled_from(sorted(set(r + 1 for r in runs)))))
-        ktype = draw(st.sampled_from(['int', 'int', 'float', 'npint']))
-        return {'bits': bits, 'k': k, 'ktype': ktype, 'layout': draw(st.sampled_from(['c', 'c', 'rev', 'stride', 'col']))}
+        ktype = draw(st.sampled_from(['int', 'int', 'float', 'npint', 'frac', 'frac', 'inf-py', 'inf-np']))
+        return {'bits': bits, 'k': k, 'ktype': ktype, 'frac': draw(st.sampled_from([0.25, 0.5, 0.99])), 'layout': draw(st.sampled_from(['c', 'c', 'rev', 'stride', 'col']))}
     return s()
 
 
 def decode(fdp):
     n = fdp.ConsumeIntInRange(1, 96)
     bits = [int(fdp.ConsumeBool()) for _ in range(n)]
-    return {'bits': bits, 'k': fdp.ConsumeIntInRange(0, 100), 'ktype': ['int', 'float', 'npint'][fdp.ConsumeIntInRange(0, 2)],
+    return {'bits': bits, 'k': fdp.ConsumeIntInRange(0, 100), 'ktype': ['int', 'float', 'npint', 'frac', 'inf-py'][fdp.ConsumeIntInRange(0, 4)],
             'layout': ['c', 'rev', 'stride', 'col'][fdp.ConsumeIntInRange(0, 3)]}
 
 
